@@ -213,6 +213,8 @@ def as_bool(val):
     if isinstance(val, (GlobalRef, Closure, BoundM, SpecFn)):
         return z3.BoolVal(True)
     if isinstance(val, ZV):
+        if getattr(val, "truth", None) is not None:
+            return val.truth
         tag = val.tag
         opt = bool(tag and tag.startswith("Opt["))
         bt = base_tag(tag)
